@@ -35,10 +35,12 @@ type priorityWriteSchedulerRFC9218 struct {
 	// queuePool are empty queues for reuse.
 	queuePool writeQueuePool
 
-	// prioritizeIncremental is used to determine whether we should prioritize
-	// incremental streams or not, when urgency is the same in a given Pop()
-	// call.
-	prioritizeIncremental bool
+	// prioritizeIncremental[u] is used to determine whether we should try
+	// incremental streams before non-incremental ones the next time urgency
+	// level u is served. It is kept per urgency level, and only changes when
+	// that level is served, so that writes at other urgency levels cannot
+	// disturb the alternation within a level.
+	prioritizeIncremental [8]bool
 
 	// priorityUpdateBuf is used to buffer the most recent PRIORITY_UPDATE we
 	// receive per https://www.rfc-editor.org/rfc/rfc9218.html#name-the-priority_update-frame.
@@ -53,6 +55,9 @@ type priorityWriteSchedulerRFC9218 struct {
 func newPriorityWriteSchedulerRFC9218() WriteScheduler {
 	ws := &priorityWriteSchedulerRFC9218{
 		streams: make(map[uint32]streamMetadata),
+	}
+	for u := range ws.prioritizeIncremental {
+		ws.prioritizeIncremental[u] = true
 	}
 	return ws
 }
@@ -174,20 +179,12 @@ func (ws *priorityWriteSchedulerRFC9218) Pop() (FrameWriteRequest, bool) {
 		return ws.control.shift(), true
 	}
 
-	// On the next Pop(), we want to prioritize incremental if we prioritized
-	// non-incremental request of the same urgency this time. Vice-versa.
-	// i.e. when there are incremental and non-incremental requests at the same
-	// priority, we give 50% of our bandwidth to the incremental ones in
-	// aggregate and 50% to the first non-incremental one (since
-	// non-incremental streams do not use round-robin writes).
-	ws.prioritizeIncremental = !ws.prioritizeIncremental
-
 	// Always prioritize lowest u (i.e. highest urgency level).
 	for u := range ws.heads {
 		for i := range ws.heads[u] {
 			// When we want to prioritize incremental, we try to pop i=true
 			// first before i=false when u is the same.
-			if ws.prioritizeIncremental {
+			if ws.prioritizeIncremental[u] {
 				i = (i + 1) % 2
 			}
 			q := ws.heads[u][i]
@@ -196,6 +193,14 @@ func (ws *priorityWriteSchedulerRFC9218) Pop() (FrameWriteRequest, bool) {
 			}
 			for {
 				if wr, ok := q.consume(math.MaxInt32); ok {
+					// The next time this urgency level is served, prioritize
+					// incremental if we served a non-incremental stream this
+					// time. Vice-versa. i.e. when there are incremental and
+					// non-incremental streams at the same urgency, we give 50%
+					// of the level's bandwidth to the incremental ones in
+					// aggregate and 50% to the first non-incremental one (since
+					// non-incremental streams do not use round-robin writes).
+					ws.prioritizeIncremental[u] = i == 0
 					if i == 1 {
 						// For incremental streams, we update head to q.next so
 						// we can round-robin between multiple streams that can
